@@ -227,6 +227,17 @@ class TRepoHook(TRepo):
         return BuildNumData(int(m.group(1)), int(m.group(2)), None, build=int(m.group(3)))
 
 
+class TRepoHookNamed(TRepoHook):
+    """... and the hook also reports the documented optional name of the version line"""
+
+    @classmethod
+    def parse_buildtag(cls, tag_str):
+        bn = super().parse_buildtag(tag_str)
+        if bn is not None:
+            bn.version_name = "LTS"
+        return bn
+
+
 class TRepoCI(TRepo):
     """a project whose build tags follow its own pattern (the class-level pattern is the customisation point)"""
     _RE_BUILD_TAG = re.compile(r"ci-(?P<build>\d+)-(?P<branch>.*)-ok$")
@@ -260,7 +271,7 @@ def component_repo_for(repo_id, repo, remote='origin'):
     saved = not repo.tags and any(c.tree.files.get("VERSION") is not None and
                                   c.tree.files["VERSION"].data.count(b".") == 2 for c in repo.commits.values())
     if any(t.startswith("lib-") for t in repo.tags):
-        return TRepoHook(repo_id, repo, remote)
+        return (TRepoHookNamed if len(repo.commits) % 2 else TRepoHook)(repo_id, repo, remote)
     two = any("version.txt" in c.tree.files for c in repo.commits.values())
     if two:
         return (TRepoSavedTwoSources if saved else TRepoTwoSources)(repo_id, repo, remote)
